@@ -219,7 +219,7 @@ Section MemberRead.
     assert (Wo : wfo (pobj_obj o)) by (eapply PW; exact Hw).
     assert (Wrest : Forall wfo (skipn (S (N.to_nat i)) (map pobj_obj os))).
     { apply Forall_forall. intros x Hx. rewrite Forall_forall in Wall. apply Wall.
-      eapply In_skipn. exact Hx. }
+      rewrite <- (firstn_skipn (S (N.to_nat i)) (map pobj_obj os)). apply in_or_app. right. exact Hx. }
     destruct (parse_member (pobj_obj o) _ Wo Wrest) as [r' Hr]. rewrite Hr. reflexivity.
   Qed.
 End MemberRead.
